@@ -206,6 +206,24 @@ func evalC01(c c01Case, o *Obs) error {
 	if !isSlpKind(c.Kind) && !a.IsForNet(p) {
 		return fmt.Errorf("%s on %s: constructed address IsForNet(own net) = false", name, nets[c.Net].Name)
 	}
+	// a public-key address can be switched to another serialisation: every view follows
+	if pk, ok := a.(*bchutil.AddressPubKey); ok {
+		x, y := pubPoint(c.Payload)
+		for step := 1; step <= 3; step++ {
+			f := (c.Kind - akPubCompressed + step) % 3
+			pk.SetFormat(map[int]bchutil.PubKeyFormat{0: bchutil.PKFCompressed, 1: bchutil.PKFUncompressed, 2: bchutil.PKFHybrid}[f])
+			ser := serPub(x, y, f)
+			if !bytes.Equal(pk.ScriptAddress(), ser) || pk.String() != hex.EncodeToString(ser) {
+				return fmt.Errorf("%s: after SetFormat(%d) ScriptAddress/String do not use the new serialisation", name, f)
+			}
+			if got, want := pk.EncodeAddress(), refB58CheckEncode(hash160(ser), p.LegacyPubKeyHashAddrID); got != want {
+				return fmt.Errorf("%s on %s: after SetFormat(%d) EncodeAddress() = %q, the address of the new serialisation is %q", name, nets[c.Net].Name, f, got, want)
+			}
+			if got := pk.AddressPubKeyHash().ScriptAddress(); !bytes.Equal(got, hash160(ser)) {
+				return fmt.Errorf("%s: after SetFormat(%d) AddressPubKeyHash() carries %x, want HASH160 of the new serialisation %x", name, f, got, hash160(ser))
+			}
+		}
+	}
 	return nil
 }
 
@@ -346,6 +364,7 @@ func TestC01(t *testing.T) {
 			}
 		}
 		kC01.Run(t, ev, perShard(pick(6000, 4000000)))
+		runConcurrent(kC01, t, ev, perShard(pick(200, 20000)), 8)
 		{
 			var need []string
 			for k := 0; k < akCount; k++ {
